@@ -188,6 +188,9 @@ func c10RunDocBytes(c *Case, d c10Doc, policy string, y, j []byte) string {
 	}
 	ly, lj := c10Load(y), c10Load(j)
 	c.Op("convert", ly.out)
+	// the "rejected" clause, judged by the specification on the declared document (Spec.mustReject)
+	c.Oracle("verdict out=" + ly.out)
+	c.Oracle("verdict out=" + lj.out)
 	c.Oracle("nopanic out=" + ly.out)
 	c.Oracle("nopanic out=" + lj.out)
 	if (ly.out != "ok" && ly.out != "err") || (lj.out != "ok" && lj.out != "err") {
@@ -534,7 +537,19 @@ func c10GenDocV0(rng *Rng) c10Doc {
 // typed-level faults: the mutated document is still a typed document the model can judge
 var c10TypedFaults = []string{"bad-crontab", "unknown-include", "ambiguous-include", "bad-label-selector", "bad-label-key",
 	"name-and-field-selector", "bad-apiversion", "bad-settings", "bad-timeout", "dup-webhook-name", "webhook-name-not-fqdn",
-	"bad-ns-label-selector", "group-ambiguous-unnamed", "group-ambiguous-named"}
+	"bad-ns-label-selector", "group-ambiguous-unnamed", "group-ambiguous-named", "bad-mut-ns-label-selector", "bad-mut-label-selector"}
+
+// schema-valid but semantically invalid label selectors (FormatLabelSelector refuses them)
+func c10BadLabelSels() []*metav1.LabelSelector {
+	return []*metav1.LabelSelector{
+		{MatchExpressions: []metav1.LabelSelectorRequirement{{Key: "env", Operator: metav1.LabelSelectorOpIn}}},
+		{MatchExpressions: []metav1.LabelSelectorRequirement{{Key: "env", Operator: metav1.LabelSelectorOpNotIn, Values: []string{}}}},
+		{MatchExpressions: []metav1.LabelSelectorRequirement{{Key: "env", Operator: metav1.LabelSelectorOpExists, Values: []string{"prod"}}}},
+		{MatchExpressions: []metav1.LabelSelectorRequirement{{Key: "env", Operator: metav1.LabelSelectorOpDoesNotExist, Values: []string{"a", "b"}}}},
+		{MatchLabels: map[string]string{"bad key!": "v"}},
+		{MatchLabels: map[string]string{"ok": "v"}, MatchExpressions: []metav1.LabelSelectorRequirement{{Key: "-bad-", Operator: metav1.LabelSelectorOpExists}}},
+	}
+}
 
 func c10ApplyTyped(rng *Rng, d c10Doc, fault string) c10Doc {
 	badLS := &metav1.LabelSelector{MatchExpressions: []metav1.LabelSelectorRequirement{{Key: "tier", Operator: metav1.LabelSelectorOpIn}}}
@@ -595,6 +610,24 @@ func c10ApplyTyped(rng *Rng, d c10Doc, fault string) c10Doc {
 			d.Validating[0].NsLabelSel = badLS
 		} else {
 			d.Validating[0].LabelSel = badLS
+		}
+	case "bad-mut-ns-label-selector", "bad-mut-label-selector":
+		// a kubernetesMutating binding has no second validation pass (ValidateValidatingWebhooks is for
+		// validating bindings only): CheckAdmission alone must refuse either selector. The other selector
+		// is absent or valid; the binding is a new one or an existing one.
+		bad := PickOne(rng, c10BadLabelSels())
+		var other *metav1.LabelSelector
+		if rng.Bool() {
+			other = &metav1.LabelSelector{MatchLabels: map[string]string{"app": "x"}}
+		}
+		if len(d.Mutating) == 0 || rng.Bool() {
+			d.Mutating = append(d.Mutating, c10Adm{Name: "mutx.example.com", Rules: c10GenRules(rng)})
+		}
+		i := rng.Intn(len(d.Mutating))
+		if fault == "bad-mut-ns-label-selector" {
+			d.Mutating[i].NsLabelSel, d.Mutating[i].LabelSel = bad, other
+		} else {
+			d.Mutating[i].LabelSel, d.Mutating[i].NsLabelSel = bad, other
 		}
 	case "group-ambiguous-unnamed":
 		// DESIGN §9 row 21: two unnamed kubernetes bindings in one group
@@ -795,7 +828,7 @@ func c10FuzzValues(rng *Rng, v any, key string, pct int) any {
 }
 
 func runC10(r *Run) {
-	r.Rule = "valid stream: grammar-directed generator of typed v1 documents (0-5 kubernetes bindings with every option: name/default, apiVersion, executeHookOnEvent / watchEvent incl. [], the three synchronization/memory flags absent/true/false, name/label/field/namespace selectors, jqFilter, allowFailure, includeSnapshotsFrom, queue, group; 0-3 schedules; validating / mutating / conversion bindings; settings; onStartup; 12% v0 documents), each rendered as YAML and as JSON and loaded by the real HookConfig.LoadAndValidate; the effective config is compared item by item with the model (correspondence) and judged by the specification (oracles: counts, documented defaults, group union, unambiguous effective includes, YAML = JSON, no panic). exhaustive scope: every combination (5 184) of the options that have a documented default on one kubernetes binding. fault stream: every single-fault mutation (14 typed-level kinds also judged by the model, 21 schema-level kinds) of a valid document must be rejected, in both renderings. value-fuzz stream (TESTING): schema-valid documents whose scalars are replaced by odd values of the same type (crontabs with zero / huge / negative steps, durations, label keys, field-selector values, names, int32 overflow ...) — no panic, no hang, YAML = JSON. malformed stream (TESTING, not a theorem: third-party decoders and the OpenAPI validator are outside the model): random and mutated byte strings under recover — never a panic, always error-or-config. A case is non-trivial when it is a valid document with >= 2 binding kinds and a group or include, or a fault case, or a malformed case whose bytes decode to a map; distinct = distinct op-line sequences."
+	r.Rule = "valid stream: grammar-directed generator of typed v1 documents (0-5 kubernetes bindings with every option: name/default, apiVersion, executeHookOnEvent / watchEvent incl. [], the three synchronization/memory flags absent/true/false, name/label/field/namespace selectors, jqFilter, allowFailure, includeSnapshotsFrom, queue, group; 0-3 schedules; validating / mutating / conversion bindings; settings; onStartup; 12% v0 documents), each rendered as YAML and as JSON and loaded by the real HookConfig.LoadAndValidate; the effective config is compared item by item with the model (correspondence) and judged by the specification (oracles: verdict = the declared document has no bad crontab / invalid selector / unknown or ambiguous include or it was rejected, counts, documented defaults, group union, unambiguous effective includes, YAML = JSON, no panic). exhaustive scope: every combination (5 184) of the options that have a documented default on one kubernetes binding. fault stream: every single-fault mutation (16 typed-level kinds also judged by the model, 21 schema-level kinds) of a valid document must be rejected, in both renderings. value-fuzz stream (TESTING): schema-valid documents whose scalars are replaced by odd values of the same type (crontabs with zero / huge / negative steps, durations, label keys, field-selector values, names, int32 overflow ...) — no panic, no hang, YAML = JSON. malformed stream (TESTING, not a theorem: third-party decoders and the OpenAPI validator are outside the model): random and mutated byte strings under recover — never a panic, always error-or-config. A case is non-trivial when it is a valid document with >= 2 binding kinds and a group or include, or a fault case, or a malformed case whose bytes decode to a map; distinct = distinct op-line sequences."
 	// warm the schema cache: it is an unsynchronised package-level map (the operator loads hooks sequentially)
 	config.GetSchema("v0")
 	config.GetSchema("v1")
@@ -839,6 +872,31 @@ func runC10(r *Run) {
 			c.Oracle("reject fault=bad-crontab-zero-step verdict=" + v)
 			if v == "hang" {
 				break // one spinning goroutine is enough
+			}
+		}
+	})
+	r.One(4, func(c *Case, rng *Rng) {
+		c.Desc = "corpus: invalid selectors of admission bindings — object labelSelector / namespace.labelSelector, validating / mutating, alone and next to a valid other selector (schema-valid, refused by FormatLabelSelector); the valid twin loads"
+		c.Nontrivial = true
+		good := &metav1.LabelSelector{MatchLabels: map[string]string{"app": "x"}, MatchExpressions: []metav1.LabelSelectorRequirement{{Key: "env", Operator: metav1.LabelSelectorOpIn, Values: []string{"prod"}}}}
+		rules := c10GenRules(rng)
+		mk := func(mutating bool, obj, ns *metav1.LabelSelector) c10Doc {
+			a := c10Adm{Name: "adm.example.com", Rules: rules, LabelSel: obj, NsLabelSel: ns}
+			if mutating {
+				return c10Doc{Mutating: []c10Adm{a}}
+			}
+			return c10Doc{Validating: []c10Adm{a}}
+		}
+		for _, mutating := range []bool{true, false} {
+			kind := map[bool]string{true: "mut", false: "val"}[mutating]
+			if v := c10RunDoc(c, mk(mutating, good, good), policy); v != "ok" {
+				c.Oracle("reject fault=none-expected-valid verdict=ok-expected-but-" + v)
+			}
+			for _, bad := range c10BadLabelSels() {
+				for _, other := range []*metav1.LabelSelector{nil, good} {
+					c.Oracle(fmt.Sprintf("reject fault=bad-%s-ns-label-selector verdict=%s", kind, c10RunDoc(c, mk(mutating, other, bad), policy)))
+					c.Oracle(fmt.Sprintf("reject fault=bad-%s-label-selector verdict=%s", kind, c10RunDoc(c, mk(mutating, bad, other), policy)))
+				}
 			}
 		}
 	})
